@@ -631,7 +631,11 @@ def parseWKTSection : Nat → List Str → Str → SR α → Res α
       else if top = s "LOCAL_CS" then ok { sr with name := s "identity", isLocal := true }
       else fail sr "unknown WKT section name") secs sr
 
-/-- `wkt` -/
+/-- `wkt`.  Order independence: every section handler only WRITES its own fields (PARAMETER values are
+stored raw, UNIT stores `ToMeter`), and the steps that combine fields written by different sections —
+false origin × `ToMeter`, `Lat0 ← Lat1`, `Long0 ← LongC`, the auxiliary-sphere flag — run HERE, after all
+sections have been read, so the clause order of the text cannot matter (`C20_wkt_false_origin_metres`;
+the order switches of `Style` exercise it on the real code). -/
 def wkt (w : Str) : Except Err (SR α) :=
   let (sr, e) := parseWKTSection (w.length + 1) [] w newSR
   let sr := if sr.name = s "Mercator_Auxiliary_Sphere" && sr.datumCode = s "wgs84" then { sr with sphere := true } else sr
